@@ -158,3 +158,45 @@ def vacuity_guard(ctx, total, least=0.5):
     n = ctx.dist.get("compared", 0)
     ctx.obligation("at least %d%% of the %d generated cases succeeded on both sides and were compared (%d)"
                    % (int(least * 100), total, n), total == 0 or n >= least * total)
+
+
+def ip_datagrams(frame, raw, depth=0, maxdepth=6):
+    """All IPv4 datagrams in a frame, at every tunnel depth: [(depth, datagram-bytes-to-end, layers)]"""
+    out = []
+    off = 0
+    if not raw:
+        if len(frame) < 34 or frame[12:14] != b"\x08\x00":
+            return out
+        off = 14
+    if len(frame) < off + 20 or frame[off] != 0x45:
+        return out
+    d = frame[off:]
+    out.append((depth, d))
+    if depth >= maxdepth:
+        return out
+    proto = d[9]
+    frag = struct.unpack(">H", d[6:8])[0]
+    if frag & 0x1fff:
+        return out
+    inner = None
+    if proto == 17 and len(d) >= 36 and d[28:32] == b"\x08\x00\x00\x00":
+        inner = d[36:]
+    elif proto == 47 and len(d) >= 24:
+        fl, pr = struct.unpack(">HH", d[20:24])
+        o = 24 + (4 if fl & 0x1000 else 0)
+        if pr == 0x88be and fl & 0x1000:
+            o += 8
+        inner = d[o:]
+    if inner is not None:
+        if len(inner) >= 34 and inner[12:14] == b"\x08\x00" and inner[14] == 0x45:
+            out += ip_datagrams(inner, False, depth + 1, maxdepth)
+        elif len(inner) >= 20 and inner[0] == 0x45:
+            out += ip_datagrams(inner, True, depth + 1, maxdepth)
+    return out
+
+
+def frame_is_raw(frame):
+    """records produced with raw: true start with the IPv4 header"""
+    if len(frame) >= 34 and frame[12:14] == b"\x08\x00" and frame[14] == 0x45:
+        return False
+    return len(frame) >= 20 and frame[0] == 0x45
